@@ -8,7 +8,10 @@
 (*                                                                         *)
 (* Metric event: name, a, b (integers: labels; targets in units of 1/U;    *)
 (*   dense ranks of the scores for AUC), b1/b2 (beta), S, e and off (the   *)
-(*   library was fed (a/U + off) * 2^e; see Metrics.tla), status in        *)
+(*   library was fed (a/U + off) * 2^e; see Metrics.tla), fam (for AUC:    *)
+(*   how the real scores were made from small integers k -- "scaled":      *)
+(*   k * 2^e, "nextafter": 2^e + k ulps; b holds their dense ranks, which  *)
+(*   is all the order-only definition of AUC needs), status in             *)
 (*   {ok, panic}, fin (finite and in range), out = round(v * 2^S).         *)
 (*   Decision table, first matching row:                                   *)
 (*     lengths differ, pairwise metric     must be "panic"   (LengthMismatch)*)
@@ -34,7 +37,7 @@ Hit(h, name) == [h EXCEPT ![name] = @ + 1]
 HitIf(h, cond, name) == IF cond THEN Hit(h, name) ELSE h
 MetricNames == {"accuracy", "precision", "recall", "fbeta", "auc", "mse", "mae", "r2"}
 HitNames == MetricNames \cup
-            {"LengthMismatch", "Unconstrained", "AucTies", "AucConstant", "SinglePosOrNeg", "Scaled", "Offset",
+            {"LengthMismatch", "Unconstrained", "AucTies", "AucConstant", "SinglePosOrNeg", "Scaled", "Offset", "AucScaled", "AucNeighbours", "AucCloserThanEps", "R2ScaledFar",
              "Expect", "Drift", "HCV", "HcvSingleClass", "HcvPure", "HcvMixed", "HcvDyadic",
              "HcvDyadicMixed", "HcvIndependent", "HcvIdentical", "ArgSort", "ArgSortLong"}
 
@@ -80,7 +83,14 @@ StepMetric(e) ==
                         (Cardinality(Pos(e.a)) = 1 \/ Cardinality(Neg(e.a)) = 1), "SinglePosOrNeg")
         h5 == HitIf(h4, con /\ e.e # 0, "Scaled")
         h5b == HitIf(h5, con /\ e.off # 0, "Offset")
-        h6 == HitIf(h5b, e.hasExpect, "Expect")
+        h5c == HitIf(h5b, con /\ e.name = "auc" /\ e.fam = "scaled", "AucScaled")
+        h5d == HitIf(h5c, con /\ e.name = "auc" /\ e.fam = "nextafter", "AucNeighbours")
+        (* distinct scores of a positive and a negative that lie within machine epsilon of each
+           other in absolute terms (scaled by 2^e <= 2^-30, or neighbouring floats) *)
+        h5e == HitIf(h5d, con /\ e.name = "auc" /\ (e.fam = "nextafter" \/ (e.fam = "scaled" /\ e.e < 0)) /\
+                          (\E p \in Pos(e.a), q \in Neg(e.a) : e.b[p] # e.b[q]), "AucCloserThanEps")
+        h5f == HitIf(h5e, con /\ e.name = "r2" /\ Abs(e.e) >= 40, "R2ScaledFar")
+        h6 == HitIf(h5f, e.hasExpect, "Expect")
         (* the design model's rational differs from the definition's: cannot happen unless
            the replay file is stale; counted as drift *)
         h7 == HitIf(h6, e.hasExpect /\ con /\ ~RatEq(<<e.xnum, e.xden>>, r), "Drift")
